@@ -13,12 +13,35 @@ import dsched
 KINDS = ["ok", "exc", "baseexc", "badres", "badarg"]
 KINDS_TIMEOUT = KINDS + ["slow_to", "slow_to", "ok"]
 KINDS_LOCKQ = ["ok", "islocked", "ok", "exc", "islocked"]   # lock-control requests travel the same queue as method calls
+# values the SENDER can pickle but the RECEIVER cannot unpickle (a class/module missing on the other side): the receiving
+# connection gives up (orderly loss of the peer connection caused by the message itself)
+KINDS_BADLOAD = ["ok", "badload_arg", "ok", "badload_res", "exc", "ok"]
 CUR_TAG = {}                                                # thread ident -> tag of the call being issued        # slow_to: slow method called with a short rpc_timeout
 FAULTS = ["none", "remove", "stop_server", "stop_client", "disconnect", "remove_then_stop"]
 
 
 class _Boom(BaseException):
     pass
+
+
+class BadLoad:
+    """pickle.dumps works; pickle.loads raises (ImportError / AttributeError / UnpicklingError by `how`)"""
+    def __init__(self, how=0):
+        self.how = how
+
+    def __reduce__(self):
+        import importlib
+        import pickle
+        if self.how % 3 == 0:
+            return (importlib.import_module, ("qmi_verif_no_such_module_%d" % self.how,))      # ModuleNotFoundError
+        if self.how % 3 == 1:
+            return (getattr, (BadLoad, "qmi_verif_no_such_attribute"))                          # AttributeError
+        return (_raise_unpickling, ())
+
+
+def _raise_unpickling():
+    import pickle
+    raise pickle.UnpicklingError("value cannot be rebuilt on this side")
 
 
 def make_object_class():
@@ -63,6 +86,11 @@ def make_object_class():
         def badres(self, tag, payload=None):
             self._enter(tag)
             return real_threading.Lock()      # cannot be pickled
+
+        @rpc_method
+        def badload(self, tag, payload=None):
+            self._enter(tag)
+            return BadLoad(len(self._execlog))  # can be pickled here, cannot be unpickled by the caller's context
 
     return Target
 
@@ -373,7 +401,7 @@ def scenario(s, spec):
     import qmi.core.messaging as M
     from qmi.core.context import QMI_Context
     from qmi.core.config_defs import CfgQmi, CfgContext
-    from qmi.core.exceptions import QMI_MessageDeliveryException, QMI_RpcTimeoutException
+    from qmi.core.exceptions import QMI_MessageDeliveryException, QMI_RpcTimeoutException, QMI_Exception
     trace = []
     obs = {"calls": {}, "trace": trace, "execlog": []}
     s.obs = obs
@@ -417,8 +445,8 @@ def scenario(s, spec):
             tag = "%s.%d" % (name, i)
             rec = {"caller": name, "kind": kind, "remote": proxy is not lp, "result": None, "done": False, "future": None}
             obs["calls"][tag] = rec
-            meth = "ok" if kind == "badarg" else kind
-            payload = real_threading.Lock() if kind == "badarg" else None
+            meth = "ok" if kind in ("badarg", "badload_arg") else ("badload" if kind == "badload_res" else kind)
+            payload = real_threading.Lock() if kind == "badarg" else (BadLoad(i) if kind == "badload_arg" else None)
             CUR_TAG[real_threading.get_ident()] = tag
             if kind == "islocked":
                 finish(rec, proxy.is_locked)
@@ -461,7 +489,11 @@ def scenario(s, spec):
     elif f == "stop_client":
         cl.stop()
     elif f == "disconnect":
-        cl.disconnect_from_peer("srv")
+        try:
+            cl.disconnect_from_peer("srv")
+        except QMI_Exception:
+            # the connection is already gone (the peer gave it up over an undecodable message): nothing to disconnect
+            obs["disconnect_refused"] = True
     for t in threads:
         t.join()
     obs["joined"] = True
